@@ -75,15 +75,16 @@ Ltac tag_step k w :=
   change (leaf_tag k w) with t; unfold lex_step1; cbn [app];
   rewrite no_slashes, no_ellipsis by reflexivity; reflexivity.
 
-Lemma step_type k w r off : k <> KFloat -> fmt_ok k w ->
+Lemma step_type k w r off : fmt_ok k w ->
   lex_step1 alnum LText (leaf_tag k w ++ x5b :: r) off =
   LEmit (mk TItemType (leaf_tag k w) off) LText (x5b :: r) (off + zlen (leaf_tag k w)).
 Proof.
-  intros Hk Hf. destruct k; try congruence; cbn in Hf.
+  intros Hf. destruct k; cbn in Hf.
   - subst w. tag_step KBin 1%nat.
   - subst w. tag_step KBool 1%nat.
   - destruct Hf as [->|[->|[->| ->]]]; [tag_step KInt 1%nat|tag_step KInt 2%nat|tag_step KInt 4%nat|tag_step KInt 8%nat].
   - destruct Hf as [->|[->|[->| ->]]]; [tag_step KUint 1%nat|tag_step KUint 2%nat|tag_step KUint 4%nat|tag_step KUint 8%nat].
+  - destruct Hf as [->| ->]; [tag_step KFloat 4%nat|tag_step KFloat 8%nat].
 Qed.
 
 (* ---------- the size "[n]" ---------- *)
@@ -399,78 +400,88 @@ Qed.
 
 Definition zoff (t : token) : token := re (fun _ => 0) t.
 
-Definition slot_text (k : kind) (x : slot) : bytes :=
+Variable fl : nat -> Z -> bytes.          (* strconv.FormatFloat, whatever it prints *)
+
+Definition slot_text (k : kind) (w : nat) (x : slot) : bytes :=
   match x with
   | SX n => n
   | SV v => match k with
             | KBool => if v =? 0 then [x46] else [x54]
             | KBin => x30 :: x62 :: fmt_bin v
+            | KFloat => fl w v
             | _ => fmt_int v
             end
   end.
 
-Fixpoint elems_text (k : kind) (ys : list slot) : bytes :=
+Fixpoint elems_text (k : kind) (w : nat) (ys : list slot) : bytes :=
   match ys with
   | [] => []
-  | [x] => slot_text k x
-  | x :: r => slot_text k x ++ [x20] ++ elems_text k r
+  | [x] => slot_text k w x
+  | x :: r => slot_text k w x ++ [x20] ++ elems_text k w r
   end.
 
-Definition slot_lexable (k : kind) (x : slot) : Prop :=
+(* what is assumed of the text of a float: followed by a blank, '>' or a line
+   feed the lexer reads it as one number token (the other oracle hypothesis is
+   [slot_scans]) *)
+Definition float_lexes (t : bytes) : Prop := forall d r off, delim d ->
+  lex_step1 alnum LText (t ++ d :: r) off = LEmit (mk TNumber t off) LText (d :: r) (off + zlen t).
+
+Definition slot_lexable (k : kind) (w : nat) (x : slot) : Prop :=
   match x with
   | SX n => sml_var n
-  | SV v => match k with KBin => 0 <= v | _ => True end
+  | SV v => match k with KBin => 0 <= v | KFloat => float_lexes (fl w v) | _ => True end
   end.
 
-Lemma slot_step k x d r off : k <> KFloat -> slot_lexable k x -> delim d ->
-  exists tok, lex_step1 alnum LText (slot_text k x ++ d :: r) off = LEmit tok LText (d :: r) (off + zlen (slot_text k x)) /\
-              zoff tok = slot_token k x.
+Lemma slot_step k w x d r off : slot_lexable k w x -> delim d ->
+  exists tok, lex_step1 alnum LText (slot_text k w x ++ d :: r) off = LEmit tok LText (d :: r) (off + zlen (slot_text k w x)) /\
+              zoff tok = slot_token fl k w x.
 Proof.
-  intros Hk Hx Hd. destruct x as [v|n]; cbn [slot_text slot_token slot_lexable] in *.
-  - destruct k; try congruence.
+  intros Hx Hd. destruct x as [v|n]; cbn [slot_text slot_token slot_lexable] in *.
+  - destruct k.
     + eexists. split; [apply (step_binary v d r off Hx Hd)|reflexivity].
     + exists (mk TBool (if v =? 0 then [x46] else [x54]) off). split; [|reflexivity].
       replace (off + zlen (if v =? 0 then [x46] else [x54])) with (off + 1) by (destruct (v =? 0); reflexivity).
       apply (step_bool v d r off Hd).
     + eexists. split; [apply (step_decimal v d r off Hd)|reflexivity].
     + eexists. split; [apply (step_decimal v d r off Hd)|reflexivity].
+    + eexists. split; [apply (Hx d r off Hd)|reflexivity].
   - eexists. split; [apply (step_var n d r off Hx Hd)|reflexivity].
 Qed.
 
-Lemma lexes_elems k : k <> KFloat -> forall ys r off, ys <> [] -> Forall (slot_lexable k) ys ->
-  exists ts, lexes LText (elems_text k ys ++ x3e :: r) off ts LText (x3e :: r) (off + zlen (elems_text k ys)) /\
-             map zoff ts = map (slot_token k) ys.
+Lemma lexes_elems k w : forall ys r off, ys <> [] -> Forall (slot_lexable k w) ys ->
+  exists ts, lexes LText (elems_text k w ys ++ x3e :: r) off ts LText (x3e :: r) (off + zlen (elems_text k w ys)) /\
+             map zoff ts = map (slot_token fl k w) ys.
 Proof.
-  intros Hk. induction ys as [|x ys IH]; intros r off Hne Hl; [congruence|].
+  induction ys as [|x ys IH]; intros r off Hne Hl; [congruence|].
   inversion Hl as [|? ? Hx Hys]; subst. destruct ys as [|y ys].
-  - cbn [elems_text]. destruct (slot_step k x x3e r off Hk Hx (or_intror (or_introl eq_refl))) as [tok [E Z0]].
+  - cbn [elems_text]. destruct (slot_step k w x x3e r off Hx (or_intror (or_introl eq_refl))) as [tok [E Z0]].
     exists [tok]. split; [apply lexes_emit; exact E|cbn [map]; rewrite Z0; reflexivity].
-  - change (elems_text k (x :: y :: ys)) with (slot_text k x ++ [x20] ++ elems_text k (y :: ys)).
+  - change (elems_text k w (x :: y :: ys)) with (slot_text k w x ++ [x20] ++ elems_text k w (y :: ys)).
     rewrite <- !app_assoc. cbn [app].
-    destruct (slot_step k x x20 (elems_text k (y :: ys) ++ x3e :: r) off Hk Hx (or_introl eq_refl)) as [tok [E Z0]].
-    destruct (IH r (off + zlen (slot_text k x) + 1) ltac:(discriminate) Hys) as [ts [L Z1]].
+    destruct (slot_step k w x x20 (elems_text k w (y :: ys) ++ x3e :: r) off Hx (or_introl eq_refl)) as [tok [E Z0]].
+    destruct (IH r (off + zlen (slot_text k w x) + 1) ltac:(discriminate) Hys) as [ts [L Z1]].
     exists (tok :: ts). split.
     + change (tok :: ts) with ([tok] ++ [] ++ ts).
       eapply lexes_trans; [apply lexes_emit; exact E|].
       eapply lexes_trans; [apply lexes_skip; apply step_blank; reflexivity|].
-      replace (off + zlen (slot_text k x ++ x20 :: elems_text k (y :: ys))) with (off + zlen (slot_text k x) + 1 + zlen (elems_text k (y :: ys))).
+      replace (off + zlen (slot_text k w x ++ x20 :: elems_text k w (y :: ys))) with (off + zlen (slot_text k w x) + 1 + zlen (elems_text k w (y :: ys))).
       * exact L.
       * unfold zlen. rewrite app_length. cbn [length]. lia.
     + cbn [map]. rewrite Z0, Z1. reflexivity.
 Qed.
 
-(* the printed form of a value item of a non-float format *)
+(* the printed form of a value item *)
 Definition leaf_text (k : kind) (w : nat) (ys : list slot) : bytes :=
   match ys with
   | [] => [x3c] ++ leaf_tag k w ++ B"[0]>"%string
-  | _ => [x3c] ++ leaf_tag k w ++ [x5b] ++ fmt_int (Z.of_nat (length ys)) ++ [x5d; x20] ++ elems_text k ys ++ [x3e]
+  | _ => [x3c] ++ leaf_tag k w ++ [x5b] ++ fmt_int (Z.of_nat (length ys)) ++ [x5d; x20] ++ elems_text k w ys ++ [x3e]
   end.
 
-Theorem lexes_leaf k w ys r off : k <> KFloat -> fmt_ok k w -> Forall (slot_lexable k) ys ->
+Theorem lexes_leaf k w ys r off : fmt_ok k w -> Forall (slot_lexable k w) ys ->
   exists ts, lexes LText (leaf_text k w ys ++ r) off ts LText r (off + zlen (leaf_text k w ys)) /\
-             map zoff ts = leaf_tokens k w ys.
+             map zoff ts = leaf_tokens fl k w ys.
 Proof.
-  intros Hk Hf Hl.
+  intros Hf Hl.
   assert (Hfi : forall n : nat, fmt_int (Z.of_nat n) = fmt_unsigned 10 (Z.of_nat n)).
   { intro n. unfold fmt_int. destruct (Z.ltb_spec (Z.of_nat n) 0); [lia|reflexivity]. }
   destruct ys as [|y ys].
@@ -479,7 +490,7 @@ Proof.
     rewrite <- !app_assoc. cbn [app].
     eexists. split.
     + eapply lexes_trans; [apply lexes_emit; apply step_lab|].
-      eapply lexes_trans; [apply lexes_emit; apply (step_type k w _ _ Hk Hf)|].
+      eapply lexes_trans; [apply lexes_emit; apply (step_type k w _ _ Hf)|].
       eapply lexes_trans; [apply lexes_emit; apply (step_size 0); lia|].
       eapply lexes_trans; [apply lexes_emit; apply step_rab|].
       match goal with |- lexes _ _ ?a _ _ _ ?b => replace b with a; [apply lexes_refl|] end.
@@ -487,46 +498,46 @@ Proof.
     + reflexivity.
   - unfold leaf_text. rewrite Hfi. rewrite <- !app_assoc. cbn [app].
     set (n := Z.of_nat (length (y :: ys))).
-    destruct (lexes_elems k Hk (y :: ys) r (off + 1 + zlen (leaf_tag k w) + zlen (x5b :: fmt_unsigned 10 n ++ [x5d]) + 1)
+    destruct (lexes_elems k w (y :: ys) r (off + 1 + zlen (leaf_tag k w) + zlen (x5b :: fmt_unsigned 10 n ++ [x5d]) + 1)
                 ltac:(discriminate) Hl) as [ts [L Z1]].
     exists ([mk TLAB [x3c] off] ++ [mk TItemType (leaf_tag k w) (off + 1)] ++
             [mk TItemSize (x5b :: fmt_unsigned 10 n ++ [x5d]) (off + 1 + zlen (leaf_tag k w))] ++ [] ++ ts ++
-            [mk TRAB [x3e] (off + 1 + zlen (leaf_tag k w) + zlen (x5b :: fmt_unsigned 10 n ++ [x5d]) + 1 + zlen (elems_text k (y :: ys)))]).
+            [mk TRAB [x3e] (off + 1 + zlen (leaf_tag k w) + zlen (x5b :: fmt_unsigned 10 n ++ [x5d]) + 1 + zlen (elems_text k w (y :: ys)))]).
     split.
     + eapply lexes_trans; [apply lexes_emit; apply step_lab|].
-      eapply lexes_trans; [apply lexes_emit; apply (step_type k w _ _ Hk Hf)|].
+      eapply lexes_trans; [apply lexes_emit; apply (step_type k w _ _ Hf)|].
       eapply lexes_trans; [apply lexes_emit; apply (step_size n); subst n; lia|].
       eapply lexes_trans; [apply lexes_skip; apply step_blank; reflexivity|].
       eapply lexes_trans; [exact L|].
       match goal with |- lexes _ _ _ _ _ _ ?b =>
-        replace b with (off + 1 + zlen (leaf_tag k w) + zlen (x5b :: fmt_unsigned 10 n ++ [x5d]) + 1 + zlen (elems_text k (y :: ys)) + 1) end.
+        replace b with (off + 1 + zlen (leaf_tag k w) + zlen (x5b :: fmt_unsigned 10 n ++ [x5d]) + 1 + zlen (elems_text k w (y :: ys)) + 1) end.
       * apply lexes_emit. apply step_rab.
       * unfold zlen. repeat (cbn [length]; rewrite ?app_length). cbn [length]. lia.
     + unfold leaf_tokens. rewrite !map_app. cbn [map]. rewrite Z1. reflexivity.
 Qed.
 
 (* the text of that item is what the printer model prints *)
-Lemma render_elems fl k w : k <> KFloat -> forall ys, render fl (join_pieces (map (print_slot k w) ys)) = elems_text k ys.
+Lemma render_elems k w : forall ys, render fl (join_pieces (map (print_slot k w) ys)) = elems_text k w ys.
 Proof.
-  intro Hk. induction ys as [|x ys IH]; [reflexivity|].
-  assert (Hx : render fl (print_slot k w x) = slot_text k x).
-  { destruct x as [v|n]; [destruct k; try congruence|]; cbn; rewrite ?app_nil_r; reflexivity. }
+  induction ys as [|x ys IH]; [reflexivity|].
+  assert (Hx : render fl (print_slot k w x) = slot_text k w x).
+  { destruct x as [v|n]; [destruct k|]; cbn; rewrite ?app_nil_r; reflexivity. }
   destruct ys as [|y ys].
   - cbn [map join_pieces elems_text]. exact Hx.
   - cbn [map] in *. rewrite join_pieces_cons2, render_app, Hx.
     change (render fl (PT sp :: ?a)) with (sp ++ render fl a). rewrite IH. reflexivity.
 Qed.
 
-Lemma print_leaf_text fl level k w ys : k <> KFloat ->
+Lemma print_leaf_text level k w ys :
   render fl (print_item_at level (ILeaf k w ys)) = leaf_text k w ys.
 Proof.
-  intro Hk. destruct ys as [|y ys].
+  destruct ys as [|y ys].
   - cbn. rewrite app_nil_r. reflexivity.
   - remember (y :: ys) as zs eqn:Ez.
     assert (E : print_item_at level (ILeaf k w zs) =
                 PT ([x3c] ++ leaf_tag k w ++ [x5b] ++ fmt_int (Z.of_nat (length zs)) ++ [x5d; x20])
                 :: join_pieces (map (print_slot k w) zs) ++ [PT [x3e]]) by (subst zs; reflexivity).
-    rewrite E, render_cons, render_app, (render_elems fl k w Hk zs). unfold leaf_text. subst zs.
+    rewrite E, render_cons, render_app, (render_elems k w zs). unfold leaf_text. subst zs.
     cbn [render flat_map]. rewrite app_nil_r, <- !app_assoc. reflexivity.
 Qed.
 End LexPrinted.
